@@ -65,15 +65,23 @@ def sync_fs(root, old, new):
 
 
 def snapshots(c):
-    """(tree, pd, pv, sys) at every get of the history"""
+    """(tree, pd, pv, sys, faults) at every get of the history"""
     tree = dict(c["base"])
     pd, pv = yamlfs.PRECEDING[0]
+    faults = {}
     out = []
     for op in c["ops"]:
-        if op[0] == "get":
-            out.append((tree, pd, pv, op[1]))
+        if op[0] in ("get", "race"):
+            if op[0] == "race":            # the file changes DURING this call: the call itself is not judged
+                tree = apply_op(tree, ("edit", op[2], op[3]))
+                continue
+            out.append((tree, pd, pv, op[1], dict(faults)))
         elif op[0] == "pre":
             pd, pv = yamlfs.PRECEDING[op[1]]
+        elif op[0] == "fault":
+            faults[op[1]] = (op[2], op[3])
+        elif op[0] == "unfault":
+            faults.pop(op[1], None)
         else:
             tree = apply_op(tree, op)
     return out
@@ -101,6 +109,67 @@ def config(c, root, cache_size):
             "allow_empty_top": c["allow_empty"], "cache_size": cache_size}
 
 
+class RaceEdit:
+    """replaces a file between the two accesses (version stat, read - in whichever order) that the template
+    loader makes on it inside one get_source call, as an editor or deployment tool racing with a request does"""
+    def __init__(self, root, rel, text):
+        self.root, self.rel, self.text = root, rel, text
+        self.path = os.path.abspath(os.path.join(root, rel))
+        self.events = 0
+        self.done = False
+        self.active = True          # narrowed to "inside the loader's get_source for this file" when that can be hooked
+
+    def _event(self, path):
+        if self.done or not self.active or os.path.abspath(str(path)) != self.path:
+            return
+        self.events += 1
+        if self.events == 2:
+            self.done = True
+            yamlfs.write_file(self.root, self.rel, self.text)
+
+    def __enter__(self):
+        import vinegar.template.jinja as J
+        self.J = J
+        self._v = J.version_for_file_path
+        self._had_open = "open" in J.__dict__
+
+        def version(path):
+            self._event(path)
+            return self._v(path)
+
+        def open_(file, *a, **kw):
+            self._event(file)
+            return open(file, *a, **kw)
+        J.version_for_file_path = version
+        J.open = open_
+        self._loader = getattr(getattr(J, "JinjaEngine", None), "_Loader", None)
+        if self._loader is not None and hasattr(self._loader, "get_source"):
+            orig = self._loader.get_source
+            self._orig_get_source = orig
+            me = self
+            self.active = False
+
+            def get_source(loader_self, environment, template):
+                me.active = os.path.abspath(str(template)) == me.path
+                me.events = 0
+                try:
+                    return orig(loader_self, environment, template)
+                finally:
+                    me.active = False
+            self._loader.get_source = get_source
+        return self
+
+    def __exit__(self, *exc):
+        self.J.version_for_file_path = self._v
+        if self._loader is not None and hasattr(self, "_orig_get_source"):
+            self._loader.get_source = self._orig_get_source
+        if not self._had_open:
+            del self.J.open
+        if not self.done:                  # the loader did not touch the file twice: edit after the call
+            yamlfs.write_file(self.root, self.rel, self.text)
+        return False
+
+
 def get(src, sysid, pd, pv):
     try:
         d, v = src.get_data(sysid, copy.deepcopy(pd), pv)
@@ -116,17 +185,30 @@ def run_real(c):
         yamlfs.materialise(tree, root)
         src = YamlTargetSource(config(c, root, c["cache_size"]))
         pd, pv = yamlfs.PRECEDING[0]
+        faults = {}
         out = []
         for op in c["ops"]:
             if op[0] == "get":
-                r = get(src, op[1], pd, pv)
-                snap = copy.deepcopy(r)
-                if r[0] == "ok":
-                    mutate(r[1])                      # isolation: must not show up in any later result
-                f = get(YamlTargetSource(config(c, root, 0)), op[1], pd, pv)
+                with yamlfs.Faults(root, faults):
+                    r = get(src, op[1], pd, pv)
+                    snap = copy.deepcopy(r)
+                    if r[0] == "ok":
+                        mutate(r[1])                      # isolation: must not show up in any later result
+                    f = get(YamlTargetSource(config(c, root, 0)), op[1], pd, pv)
                 out.append((snap, f))
+            elif op[0] == "race":
+                with RaceEdit(root, op[2], op[3]):
+                    get(src, op[1], pd, pv)           # old or new content: both are legitimate for this call
+                tree = apply_op(tree, ("edit", op[2], op[3]))
             elif op[0] == "pre":
                 pd, pv = yamlfs.PRECEDING[op[1]]
+            elif op[0] == "fault":
+                faults[op[1]] = (op[2], op[3])
+                if op[2] == "read":
+                    yamlfs.touch(root, op[1])
+            elif op[0] == "unfault":
+                if faults.pop(op[1], (None,))[0] == "read":
+                    yamlfs.touch(root, op[1])
             else:
                 new = apply_op(tree, op)
                 sync_fs(root, tree, new)
@@ -206,7 +288,42 @@ EDITS_L = [
 BLOCK_TEXTS = ["k: |\n  a", "k: |\n  a\n", "k: |\n  a\n\n", "k: |+\n  a\n", "k: |+\n  a\n\n", "k: |+\n  a\n\n\n",
                "k: >\n  a", "k: >\n  a\n", "k: >+\n  a\n\n", "k: |\n  a\n  \n", "k: a", "k: a\n", "k: a\n\n\n", "k: a \n"]
 BASE_B = {"top.yaml": "'*': [f, g]\n", "f.yaml": BLOCK_TEXTS[0], "g.yaml": "m: 1\n"}
+# both a.yaml and a/init.yaml exist: a failing stat of a.yaml must not silently select the init file
+BASE_F = {"top.yaml": "'*': [a, b]\n", "a.yaml": "k: file\ninclude: [b]\n", "a/init.yaml": "k: init\n", "b.yaml": "m: 1\n"}
+
+
+def fault_histories():
+    out = []
+    for kind, err in (("stat", "EIO"), ("stat", "EACCES"), ("read", "EACCES"), ("read", "EIO"), ("stat", "ESTALE")):
+        for rel in ("a.yaml", "top.yaml", "b.yaml", "a/init.yaml"):
+            out.append((BASE_F, [("get", "s1"), ("fault", rel, kind, err), ("get", "s1"), ("get", "s2"), ("unfault", rel),
+                                 ("get", "s1"), ("get", "s1")]))
+        out.append((BASE_F, [("fault", "a.yaml", kind, err), ("get", "s1"), ("unfault", "a.yaml"), ("get", "s1"),
+                             ("edit", "a.yaml", "k: new\n"), ("get", "s1")]))
+        out.append(({k: v for k, v in BASE_F.items() if k != "a.yaml"},
+                    [("get", "s1"), ("fault", "a/init.yaml", kind, err), ("get", "s1"), ("unfault", "a/init.yaml"), ("get", "s1")]))
+    return out
+
+
+def race_histories():
+    """a file is replaced while the template loader is between its two accesses; the overlapping call may see either
+    content, every LATER call must see the new one"""
+    out = []
+    for base in (BASE_T, BASE):
+        for rel, new in (("a.yaml", "k: raced\nm: 7\n"), ("d/x.yaml", "m: raced\n"), ("top.yaml", "'*': [a]\n")):
+            out.append((base, [("race", "s1", rel, new), ("get", "s1"), ("get", "s1"), ("get", "s2")]))
+            out.append((base, [("get", "s1"), ("edit", rel, base[rel] + "# touched\n"), ("race", "s1", rel, new), ("get", "s1"),
+                               ("get", "s2"), ("get", "s1")]))
+            out.append((base, [("get", "s1"), ("race", "s1", rel, new), ("get", "s1"), ("race", "s2", rel, base[rel]), ("get", "s1"),
+                               ("get", "s2")]))
+    return out
+
+
 EDITS = [
+    ("edit", "a.yaml", "k: ~\nm: 0\nz: ''\n"),                     # falsy but valid values
+    ("edit", "d/x.yaml", "m: false\nn: {}\no: []\n"),
+    ("edit", "d/x.yaml", "m: \u00e9t\u00e9\nn: {p: -12345678901234567890}\n"),   # non-ASCII, huge
+    ("edit", "a.yaml", "k: 1\ninclude: []\nm: 1\n"),                 # falsy include list
     ("edit", "a.yaml", "k: 4\n"),
     ("edit", "a.yaml", "m: 1\ninclude: [d.x]\nk: 1\n"),
     ("edit", "d/x.yaml", "m: 5\n"),
@@ -244,7 +361,8 @@ class C12(Check):
                  "generated edit histories")
     rule = ("case = (base tree of 4 files with/without templates, history of edit/delete/create/swap file<->init/"
             "set-preceding/get ops, cache_size in {0,1,2,64}, engine on/off); exhaustive: every pair of mutations each "
-            "followed by gets for two systems (base trees: plain, templated, a list/set-merging pair with merge flags on whose later file is edited, a file ending in a "
+            "followed by gets for two systems (fault injection: os.stat or open failing with EIO/EACCES/ESTALE for one file during some calls, then recovering; "
+            "a file replaced between the template loader's two accesses during a call; base trees: plain, templated, a list/set-merging pair with merge flags on whose later file is edited, a file ending in a "
             "block scalar whose trailing line breaks alone change, and one where a non-leaf file with a relative "
             "include is reached twice with a conflicting piece in between and can be swapped to init.yaml); random histories up to 10 ops incl. random trees; the D13 witness; "
             "every returned tree is scribbled over by the caller; non-trivial = history with >= 2 gets and >= 1 mutation; "
@@ -299,7 +417,21 @@ class C12(Check):
                         continue
                     ops = [("edit", "f.yaml", t1), ("get", "s1"), ("edit", "f.yaml", t2), ("get", "s1"), ("edit", "f.yaml", t1), ("get", "s1")]
                     yield {"base": BASE_B, "ops": ops, "cache_size": 64, "engine": engine, "ml": False, "ms": True, "allow_empty": False}
-        n = 160 if tier == "quick" else 4000
+        for base, ops in fault_histories():
+            for engine in (False, True):
+                yield {"base": base, "ops": ops, "cache_size": 64 if engine else 2, "engine": engine, "ml": False, "ms": True,
+                       "allow_empty": False}
+        # the top file turns malformed and heals again (every TypeError / RuntimeError branch of _process_top)
+        for bad in ("- a\n", "'*': 5\n", "'*': [a, '']\n", "5: [a]\n", "'(': [a]\n", "'*': [a\n", "", "[]\n", "{}\n"):
+            ops = [("get", "s1"), ("edit", "top.yaml", bad), ("get", "s1"), ("get", "s2"), ("edit", "top.yaml", BASE["top.yaml"]),
+                   ("get", "s1")]
+            yield {"base": BASE, "ops": ops, "cache_size": 64, "engine": False, "ml": False, "ms": True, "allow_empty": bad == ""}
+        for base, ops in race_histories():
+            for engine in (True, False):
+                if (base is BASE_T) != engine:
+                    continue
+                yield {"base": base, "ops": ops, "cache_size": 64, "engine": engine, "ml": False, "ms": True, "allow_empty": False}
+        n = 110 if tier == "quick" else 4000
         for _ in range(n):
             engine = rng.random() < 0.5
             if rng.random() < 0.5:
@@ -308,6 +440,10 @@ class C12(Check):
             else:
                 b = yamlfs.rand_tree(rng, engine, nfiles=rng.randrange(2, 6))
                 pool = [("pre", 1), ("pre", 2), ("pre", 0)]
+                for rel in list(b):
+                    if b[rel] is not DIR and rng.random() < 0.3:
+                        pool.append(("fault", rel, rng.choice(["stat", "read"]), rng.choice(["EIO", "EACCES"])))
+                        pool.append(("unfault", rel))
                 for rel in list(b):
                     if b[rel] is DIR:
                         del b[rel]
@@ -340,11 +476,11 @@ class C12(Check):
         yl = {}
         calls = []
         groups = {}            # the matcher is a function of (system id, preceding-data version)
-        for (tree, pd, pv, sysid) in snapshots(c):
+        for (tree, pd, pv, sysid, faults) in snapshots(c):
             r, y, m = yamlfs.oracle_dicts(tree, c["engine"], sysid, pd)
             yl.update(y)
             groups.setdefault((sysid, pv), {}).update(m)
-            calls.append([sysid, pv, yamlfs.listing(tree), yamlfs.enc_render(r)])
+            calls.append([sysid, pv, yamlfs.listing(tree, faults), yamlfs.enc_render(r)])
         cfg = [c["allow_empty"], c["ml"], c["ms"], c["engine"]]
         gs = [[k[0], k[1], yamlfs.enc_match(m)] for k, m in groups.items()]
         return sx([c.get("variants", CURRENT_VARIANTS), cfg, c["cache_size"], yamlfs.enc_yload(yl), gs, calls, canon_versions(o)])
@@ -385,7 +521,7 @@ class C12(Check):
         if c.get("kind") == "lru":
             return None
         gets = sum(1 for op in c["ops"] if op[0] == "get")
-        muts = sum(1 for op in c["ops"] if op[0] != "get")
+        muts = sum(1 for op in c["ops"] if op[0] not in ("get",))
         if gets >= 2 and muts >= 1:
             return repr((sorted(c["base"].items()), c["ops"], c["cache_size"], c["engine"], c["ml"], c["ms"]))
         return None
